@@ -17,7 +17,7 @@
    ([utf_spec]), each tour edit by counting equations on node lists, and the validity of real tours
    (SchedToursFacts) turns counts into NoDup / membership at the end. *)
 From Coq Require Import Arith.
-From RS Require Import Base BaseFacts Network NetSpec NetFacts Tour TourSpec TourStmts TourFacts TourValidFacts.
+From RS Require Import SchedPeel Base BaseFacts Network NetSpec NetFacts Tour TourSpec TourStmts TourFacts TourValidFacts.
 From RS Require Import Transition Schedule SchedInv SchedObs SchedStruct SchedCostsFacts SchedUnservedFacts
   SchedListFacts SchedToursFacts.
 
@@ -871,7 +871,7 @@ Lemma update_tours_shape s veh tours forms usage dummies ids dids uns costs p nt
   tours2 = (if is_dummy s r then tours1_of s p ntp tours else vset r ntr (tours1_of s p ntp tours)) /\
   (is_dummy s r = false -> exists o, vget r (tours1_of s p ntp tours) = Some o).
 Proof.
-  intros H. unfold update_tours in H.
+  intros H. apply update_tours_peel in H. unfold update_tours_prefix in H.
   monp H. mon H. monp H. mon H. monp H. inversion H; subst; clear H.
   split; [reflexivity|].
   assert (Q : vehicles1 = vehicles1_of s p ntp veh /\ l3 = tours1_of s p ntp tours).
